@@ -34,7 +34,7 @@ def free_vars(t, acc=None):
 
 def thread_paths(ses, funcs, kind, logger, outcl):
     """paths of one output-thread iteration for a result of `kind`: list of dict(events, pc, logged_error)"""
-    ex = ses.executor("bin", "default", inline=lambda n_, f: False)
+    ex = ses.executor("bin", "default", inline=clihooks.inline_cli_helpers)      # helpers that wrap the atomics are executed in place
     item = clistatus.format_result(ex, kind)
     ex.hooks = clistatus.make_hooks(funcs, [item], logger, fresh_loads=True)
     env = ex.fresh_lazy(outcl.params[0][1], "closure-env")
@@ -50,7 +50,7 @@ def thread_paths(ses, funcs, kind, logger, outcl):
 
 
 def logger_paths(ses, funcs, logger):
-    ex = ses.executor("bin", "default", inline=lambda n_, f: False)
+    ex = ses.executor("bin", "default", inline=clihooks.inline_cli_helpers)
     ex.hooks = clistatus.make_hooks(funcs, [], logger, fresh_loads=True)
     rec = Lazy(next(ex.oid_counter), "Record<'_>", "record", 0, {"level": z3.BitVecVal(1, 64)})
     args = [RefV(rec) if "Record<" in t else ex.fresh_lazy(t, "logger." + p) for p, t in logger.params]
